@@ -257,6 +257,10 @@ def Authn.filterNs (a : Authn) (nss : List String) : Authn :=
 def sidecarView (root : String) (configs : List PA) (clientNs : String) (importedNs : List String) : Authn :=
   (initAuthn root configs).filterNs (clientNs :: root :: importedNs)
 
+/-- The config dependencies `selectAuthnPolicies` registers for a proxy: one per config of the filtered view. -/
+def sidecarDeps (root : String) (ps : List PA) (clientNs : String) (importedNs : List String) : List (String × String) :=
+  (sidecarView root ps clientNs importedNs).peerAuths.map (fun p => (p.ns, p.name))
+
 /-- `NewMtlsPolicy(push, view, ns, labels, _).GetMutualTLSModeForPort(port)` on a given view. -/
 def Authn.modeFor (a : Authn) (w : Workload) (port : Nat) : MTLS :=
   (compose a.rootNs (a.configsFor w)).modeForPort port
